@@ -139,7 +139,7 @@ def _explore(cfg, tier, only=None):
     counters = {"cycles": 0, "unaligned_payloads": 0}
 
     def on_transition(hist, ev, st):
-        if only is not None and (hist != only["history"] or ev != only["event"]):
+        if only is not None and only != "direct" and (hist != only["history"] or ev != only["event"]):
             return _apply(st, ev) if len(hist) < len(only["history"]) else None
         if not ev.startswith("cycle"):
             try:
@@ -201,7 +201,13 @@ def _explore(cfg, tier, only=None):
             return None
         return st
 
-    res = lifecycle.bfs_local(lambda: St(cfg), lambda st: _events(st, tier), _apply, lambda st: lifecycle.model_hash(st.model), on_transition, depth)
+    on_transition.apply = _apply
+    if only == "direct":
+        return on_transition, viol
+    if cfg.get("long"):
+        res = lifecycle.long_paths(lambda: St(cfg), lambda st: _events(st, tier), on_transition, cfg["long"], 3 if tier == "quick" else 6)
+    else:
+        res = lifecycle.bfs_local(lambda: St(cfg), lambda st: _events(st, tier), _apply, lambda st: lifecycle.model_hash(st.model), on_transition, depth)
     res["cycles"] = counters["cycles"]
     res["unaligned_payloads"] = counters["unaligned_payloads"]
     return res, viol
@@ -214,6 +220,11 @@ def _cfgs(tier):
             for a in (None, "qint8", "qfloat8_e4m3fn"):
                 for dt in ("float32", "float16", "bfloat16"):
                     out.append({"model": model, "w": w, "a": a, "dt": dt})
+    # depth ladder: a few fixed long histories per configuration (many successive save/load cycles through all serializers/targets)
+    for model in ("mlp", "ln", "conv", "wide"):
+        for w in ("qint8", "qfloat8_e4m3fn", "qint4"):
+            for a in (None, "qint8"):
+                out.append({"model": model, "w": w, "a": a, "dt": "float32", "long": 24 if tier == "quick" else 80})
     # size ladder: large layers (block-wise readers/writers, kernels chosen by size or alignment), shallow histories
     for model in ("big_lin", "big_pair", "big_k25", "big_k27"):
         for w in ("qint8", "qint4") if not model.startswith("big_k") else ("qint8",):
@@ -234,7 +245,7 @@ def run_task(task):
     for v in viol:
         seen.setdefault(str(sorted(v["fields"].items())), v)
     out = {"evals": res["transitions"], "nontrivial": res["cycles"], "points": res["states"], "calls": res["transitions"], "violations": list(seen.values())[:40], "nviol": len(viol),
-           "counters": {"frontier_emptied": int(res["frontier_emptied"]), "unexpanded": res["unexpanded"], "unaligned_payloads": res["unaligned_payloads"]}, "samples": []}
+           "counters": {"frontier_emptied": int(res["frontier_emptied"]), "unexpanded": res["unexpanded"], "unaligned_payloads": res["unaligned_payloads"], "long_paths": res.get("long_paths", 0), "long_steps": res.get("long_steps", 0)}, "samples": []}
     if task["cfg"] == {"model": "wide", "w": "qint4", "a": "qint8", "dt": "float16"}:
         out["samples"] = [{"config": task["cfg"], "history": h} for h in res["samples"]] or [{"config": task["cfg"], "history": ["freeze", "cycle:safetensors:requantize"]}]
     return out
@@ -247,7 +258,12 @@ def crash_violation(task, info):
 def replay_task(case):
     if case.get("event") is None:
         return _explore(case["cfg"], case["tier"])[1]
-    return _explore(case["cfg"], case["tier"], only={"history": case["history"], "event": case["event"]})[1]
+    on_transition, viol = _explore(case["cfg"], case["tier"], only="direct")
+    st = St(case["cfg"])
+    for ev in case["history"]:
+        st = _apply(st, ev)
+    on_transition(list(case["history"]), case["event"], st)
+    return viol
 
 
 def coverage(agg, tier, tasks):
@@ -266,6 +282,7 @@ def coverage(agg, tier, tasks):
         "configs_whose_state_space_saturated": agg.counters.get("frontier_emptied", 0),
         "unexpanded_frontier_states": agg.counters.get("unexpanded", 0),
         "depth": 3 if tier == "quick" else 4,
+        "depth_ladder": {"fixed_long_paths": agg.counters.get("long_paths", 0), "steps": agg.counters.get("long_steps", 0), "length": 24 if tier == "quick" else 80},
         "loaded_payloads_not_16_byte_aligned": agg.counters.get("unaligned_payloads", 0),
         "exhaustive": True,
     }
